@@ -459,7 +459,9 @@ MANIFEST = {
             "depth bookkeeping in force at its enter and never raises. The model is hand-written and is run against "
             "ContextTracker on every check (per-event and structured semantics, globals compared after every enter/exit). "
             "The tensor-level clauses (untracked ops record nothing, in-place writes go to own memory, backward is a no-op) "
-            "are decided by a direct predicate on the implementation.",
+            "are decided by a direct predicate on the implementation; backward() inside no_autodiff is called on terminal, "
+            "intermediate, view, seeded and constant-with-creator tensors and must leave creators, consumers, gradients and "
+            "locks of the whole graph as they were.",
     "note": "Trusted: Lean kernel; axioms {propext, Quot.sound}; the harness that maps `with`/decorator executions to "
             "enter/exit events; Python's `with` semantics. Non-LIFO (generator-interleaved) exits are outside the quantifier.",
 }
